@@ -247,7 +247,9 @@ def classify(b: bytes, impl: str, model: str):
                 return (f"{ifam}:field:{k}", True, f"field {k}: exposed {ifl.get(k)}, ISO position holds {mfl[k]}")
         return (f"{ifam}:fields", True, "exposed fields differ from the ISO layout")
     if iv == "ok":
-        # typed, bytes kept, but the oracle sees no lossless typed reading: the tie is off, the statement holds here
+        # typed, bytes kept and the exposed values are the ones at the ISO positions, but the oracle's reading of the
+        # length / format rules has no typed view of this string: the statement's checkable part (pdu == input, fields
+        # at their positions) holds on this input, the tie is off
         return (f"{ifam}:typed-where-oracle-{mv}", False, f"typed {icls} (bytes kept) where the oracle says {mv}")
     if mv == "ok":
         return (f"{mfam}:{iv}-where-oracle-typed", False, f"{iv} where the oracle has a lossless typed reading {mcls}")
@@ -522,8 +524,8 @@ def run(ctx):
                          {"row": [name, fam, rsid, by_sub, sub, subfn, mn, mx]}, spec_violated=False, site=name)
 
     # 2. valid responses of every class + neighbours
-    per_class = ctx.pick(40, 400)
-    n_mut_src = ctx.pick(8, 60)
+    per_class = ctx.pick(120, 600)
+    n_mut_src = ctx.pick(24, 100)
     for row in rows:
         for i in range(per_class):
             b, exp = build(rng, row, maxrec if i % 8 == 0 else 24)
@@ -532,7 +534,7 @@ def run(ctx):
                 for lab, m in mutate(rng, b if len(b) <= 40 else build(rng, row, 12)[0], widen):
                     inputs.append((f"mut:{lab}", m, None))
     # multi-identifier RDBI answers, duplicate DTCs, DDDI / up-download format corners: explicit neighbours
-    for _ in range(ctx.pick(30, 300)):
+    for _ in range(ctx.pick(150, 800)):
         d = rng.randrange(1 << 24)
         st = [rng.randrange(256) for _ in range(3)]
         sub = rng.choice([0x02, 0x0A, 0x0F, 0x13, 0x15, 0x0B])
@@ -550,7 +552,7 @@ def run(ctx):
     sids = known_sids + [0x00, 0x3F, 0x40, 0x41, 0x5A, 0x78, 0xBF, 0xFF]
     inputs.append(("short:empty", b"", None))
     full3 = (not ctx.quick) or widen
-    grid = sorted(set([0, 1, 2, 3, 4, 0x0F, 0x10, 0x11, 0x20, 0x21, 0x7F, 0x80, 0x81, 0xF0, 0xFD, 0xFE, 0xFF] + [rng.randrange(256) for _ in range(7)]))
+    grid = sorted(set([0, 1, 2, 3, 4, 0x0F, 0x10, 0x11, 0x20, 0x21, 0x7F, 0x80, 0x81, 0xF0, 0xFD, 0xFE, 0xFF] + [rng.randrange(256) for _ in range(24)]))
     for s in sids:
         inputs.append(("short:len1", bytes([s]), None))
         for a in range(256):
@@ -609,7 +611,7 @@ def run(ctx):
                      site=f"{site}._from_pdu/.pdu")
 
     # 4. objects from the public constructors: .pdu, then parsed back
-    n_con = ctx.pick(25, 250)
+    n_con = ctx.pick(60, 400)
     con = []
     for row in rows:
         for _ in range(n_con):
@@ -632,8 +634,13 @@ def run(ctx):
         ctx.kind("constructed")
         want = exp + " pdu=" + hx(p)
         if m != want:
-            ctx.disagree(f"constructed:{FAM_OF.get(name, name)}:layout", f"{name}(...).pdu does not put the field values at the ISO positions",
-                         {"class": name, "fields": exp, "pdu": hx(p)}, impl=want, model=m, spec_violated=True, site=f"{name}.pdu")
+            if m.startswith("ok "):
+                ctx.disagree(f"constructed:{FAM_OF.get(name, name)}:layout", f"{name}(...).pdu does not put the field values at the ISO positions",
+                             {"class": name, "fields": exp, "pdu": hx(p)}, impl=want, model=m, spec_violated=True, site=f"{name}.pdu")
+            else:
+                ctx.disagree(f"constructed:{FAM_OF.get(name, name)}:oracle-{m.split(' ')[0]}",
+                             f"{name}(...) built from in-range values serialises to bytes the oracle has no typed reading of",
+                             {"class": name, "fields": exp, "pdu": hx(p)}, impl=want, model=m, spec_violated=False, site=f"{name}.pdu")
     ctx.traces_validated += len(con)
 
 
